@@ -293,9 +293,13 @@ def main():
             if w.get('many_inputs'):
                 # only the phase in which the start URLs are stored: the statements and commits right after the schema
                 ddl = c['counts'].get('ddl', 0)
-                span = 40 if check.thorough else 5
-                points = [{'kind': 'before_stmt', 'at': k} for k in range(ddl + 1, ddl + 1 + span)]
-                points += [{'kind': 'after_commit', 'at': k} for k in range(1, (12 if check.thorough else 3))]
+                first_update = c['counts'].get('first_update_stmt', ddl + 9)
+                setup_commits = c['counts'].get('commits_before_first_update', 4)
+                points = [{'kind': 'before_stmt', 'at': k} for k in range(ddl + 1, first_update + 1)]
+                points += [{'kind': 'after_commit', 'at': k} for k in range(1, setup_commits + 1)]
+                if check.thorough:
+                    points += [{'kind': 'before_commit', 'at': k} for k in range(1, setup_commits + 1)]
+                    points += [{'kind': 'after_stmt', 'at': k} for k in range(ddl + 1, first_update + 1)]
                 check.count('kill_points_while_storing_start_urls', len(points))
                 for p in points:
                     cases.append(dict(w, kill=p, reference_requests=ref))
